@@ -1,22 +1,38 @@
 """C12: UTC entries round-trip; id/time conversion is anchored, monotone, invertible.
-This standalone module currently runs only the id/time conversion half (slice `tmap`,
-tools/props/C12_tmap.py); the UTC round trip through files is added by the integrator."""
-import vlib
-from props import C12_tmap
+Two halves: (a) the id/time conversion (slice `tmap`, tools/props/C12_tmap.py: Coq model + theorems of tmap.c and a
+correspondence run of jls_tmap_*); (b) the UTC round trip through files (tools/props/C12_file.py: writer programs with
+0..1300 UTC entries, iteration from every sample-id class, compared with the extracted Spec.utc_from)."""
+import os, glob
+import vlib, proglib
+import C12_tmap, C12_file
 
-PROP_FILES = list(C12_tmap.PROP_FILES)
+PROP_FILES = sorted(set(list(C12_tmap.PROP_FILES) + [os.path.basename(f) for f in glob.glob(os.path.join(vlib.COQ, "Properties_C12_*.v"))]))
 
 
 def run(ctx):
     vlib.build(ctx, PROP_FILES, variants=("plain", "asan"))
     C12_tmap.run_tmap(ctx, build=False)
+    # (b) file half
+    n = 120 if ctx.tier == "quick" else 1200
+    cases = [C12_file.gen_case(ctx.rng, ctx.tier) for _ in range(n)]
+    impl, mod = proglib.run_pair(ctx, [c[0] for c in cases], "plain", timeout=60)
+    nviol = 0
+    for (script, meta), a, m in zip(cases, impl, mod):
+        mism = [x for x in proglib.compare_case(script, a, m) if x["cls"] in ("utc", "fault")]
+        ctx.count(("file", script), nontrivial=not meta.get("trivial"), sample=None)
+        if mism:
+            nviol += 1
+            if nviol <= 20:
+                ctx.violation("c12_file_%d.txt" % nviol, proglib.replay_text(script, "plain", mism), "UTC round trip: %s (%s)" % (mism[0]["why"], mism[0]["op"][:60]))
+    ctx.extra["file_half_cases"] = n
+    ctx.cov["rule"] = (ctx.cov.get("rule") or "") + " || file half: writer programs with 0..1300 UTC entries (decimation 10/11/13/100, first sample id 0/5/-7/10^6/2^40, rates 1..10^9, irregular spacing), iteration from ids before/at/between/after entries and with stopping callbacks, compared with extracted Spec.utc_from"
     if ctx.tier == "thorough":
         vlib.coqchk(ctx, [f[:-2] for f in PROP_FILES])
-    return vlib.finish(ctx, "proof", "make -C /verif/coq -f Makefile.coq Properties_C12_tmap.vo && coqc -Q . JLS Properties_C12_tmap.v (Print Assumptions)",
+    return vlib.finish(ctx, "proof", "make -C /verif/coq -f Makefile.coq %s; coqc -Q . JLS <each> (Print Assumptions)" % " ".join(f.replace(".v", ".vo") for f in PROP_FILES),
                        trusted_extra=["binary64 evaluation of dk*(dt/ds) in tmap.c is modelled over Q exactly; the rounding gap is measured (model vs implementation within 1, and a python binary64 re-evaluation equal to the implementation), not proved",
                                       "the tmap harness prints the implementation's constants next to the model's (consts line)"],
                        note="theorems quantify over all maps (any number of entries >= 1, strictly increasing ids, non-decreasing times) and all queries; "
-                            "correspondence ties jls_tmap_* binaries to TmapModel")
+                            "correspondence ties jls_tmap_* binaries to TmapModel; the UTC file round trip is differential against Spec.utc_from")
 
 
 def replay(ctx, path):
